@@ -2518,3 +2518,77 @@ func identifiersComeFromAWrite(c *Ctx, r *Report, rule string) {
 	}
 	r.Floor(rule, "functions that hand out identifiers", n, 4)
 }
+
+// noCallerFunctionUnderTheLock: while a method of the log holds the log's lock it calls no function value it was
+// handed as a parameter. Such a value is the caller's code — in a merge, a method value of the other log (its Has,
+// its Get), which takes that log's lock inside this one's: two merges in opposite directions nest the two locks in
+// opposite orders, and with a writer queued on each both hang.
+func noCallerFunctionUnderTheLock(c *Ctx, r *Report, rule string) {
+	p := c.P
+	lockF := p.Field("", "IPFSLog", "lock")
+	nParams, nMethods := 0, 0
+	for _, fn := range p.Fns {
+		if fn.Body == nil || fn.Decl == nil || fn.Decl.Recv == nil || fn.Pkg.PkgPath != p.pkgPath("") {
+			continue
+		}
+		fn := fn
+		funcParams := map[types.Object]bool{}
+		sig, _ := fn.Obj.Type().(*types.Signature)
+		if sig == nil {
+			continue
+		}
+		for i := 0; i < sig.Params().Len(); i++ {
+			if _, isFn := sig.Params().At(i).Type().Underlying().(*types.Signature); isFn {
+				funcParams[paramObjAny(fn, i)] = true
+			}
+		}
+		if len(funcParams) == 0 {
+			continue
+		}
+		nMethods++
+		nParams += len(funcParams)
+		lockOp := func(call *ast.CallExpr) string {
+			se, ok := ast.Unparen(call.Fun).(*ast.SelectorExpr)
+			if !ok {
+				return ""
+			}
+			if v, _ := p.FieldSel(fn, se.X); v != lockF {
+				return ""
+			}
+			return se.Sel.Name
+		}
+		fl := &Flow{P: p, Fn: fn, May: true, Entry: Facts{}}
+		fl.Node = func(nd ast.Node, f Facts) {
+			walkNoLit(nd, func(m ast.Node) bool {
+				if call, ok := m.(*ast.CallExpr); ok {
+					switch lockOp(call) {
+					case "Lock", "RLock":
+						f["held"] = true
+					case "Unlock", "RUnlock":
+						delete(f, "held")
+					}
+				}
+				return true
+			})
+		}
+		fl.Run()
+		fl.Visit(func(_ *cfgBlk, nd ast.Node, before Facts) {
+			if !before["held"] {
+				return
+			}
+			walkNoLit(nd, func(m ast.Node) bool {
+				call, ok := m.(*ast.CallExpr)
+				if !ok {
+					return true
+				}
+				if id, ok := ast.Unparen(call.Fun).(*ast.Ident); ok && funcParams[p.ObjOf(fn, id)] {
+					r.Violate(rule, r.Key(rule, fn, "caller-function-under-lock", id.Name), call.Pos(),
+						fmt.Sprintf("%s calls %s, a function it was handed, while it holds the log's lock: when that function is a method of another log it takes that log's lock inside this one's — two merges in opposite directions nest the two locks in opposite orders, and with a writer queued on each log both merges and both writers hang", fn.Name, id.Name))
+				}
+				return true
+			})
+		})
+	}
+	r.Hold(rule, r.Key(rule, nil, "examined", ""), token.NoPos, true, fmt.Sprintf("%d function parameters of %d methods of the root package examined: none is called while the log's lock is held", nParams, nMethods))
+	r.Floor(rule, "methods of the root package that take a function", nMethods, 1)
+}
